@@ -1152,6 +1152,15 @@ class ReadOnlyMonitor(Monitor):
             ops["export_to_geff/zarr3"] = lambda: export_to_geff(
                 t, wd / f"i{uniq}.zarr", zarr_format=3)
         ops["save_tracks"] = lambda: save_tracks(t, wd / f"s{uniq}")
+        ops["save_tracks/method"] = lambda: t.save(wd / f"m{uniq}")
+        if nodes:
+            ops["export_to_csv/deprecated-method"] = lambda: t.export_tracks(
+                wd / f"x{uniq}.csv")
+        ops["queries/registry"] = lambda: (
+            t.features.dump_json(), list(t.features.node_features),
+            list(t.features.edge_features), dict(t.annotators.all_features),
+            dict(t.annotators.features), t.get_available_features(), t.ndim, t.scale,
+            len(t.action_history.undo_stack), len(t.action_history.redo_stack))
         ops["split_position_attr"] = lambda: split_position_attr(t)
         if nodes:
             ops["filter_graph_with_ancestors"] = lambda: filter_graph_with_ancestors(
